@@ -421,6 +421,17 @@ func GetSignalCells(
 
 	numSignalCells := utils.GetNumberOfSignalCells(bitStream, pos, bitsPerCell)
 
+	// The count above is inferred from the data that follows the satellite
+	// cells, which includes any padding and the CRC and may end with cells
+	// whose bits are all zero, so it can be too big or too small.  The cell
+	// mask in the header says how many cells there are.  If the message is
+	// long enough to hold that many (plus the CRC), that is the number.
+	if header.NumSignalCells >= 0 && bitsInStream >= pos &&
+		bitsLeft >= uint(header.NumSignalCells)*bitsPerCell+utils.CRCLengthBits {
+
+		numSignalCells = header.NumSignalCells
+	}
+
 	if header.MultipleMessage {
 		// The message doesn't contain all the signal cells but there should be
 		// at least one.
